@@ -2,6 +2,8 @@
 package document
 
 import (
+	"bytes"
+	"encoding/xml"
 	"fmt"
 	"os"
 	"path/filepath"
@@ -1891,14 +1893,13 @@ func (te *TemplateEngine) replaceVariablesInXMLPart(xmlData []byte, data *Templa
 	return []byte(content), nil
 }
 
-// escapeXMLContent 转义XML特殊字符
+// escapeXMLContent 转义XML特殊字符；XML不能表示的控制字符按 encoding/xml 的做法替换为 U+FFFD
 func (te *TemplateEngine) escapeXMLContent(s string) string {
-	s = strings.ReplaceAll(s, "&", "&amp;")
-	s = strings.ReplaceAll(s, "<", "&lt;")
-	s = strings.ReplaceAll(s, ">", "&gt;")
-	s = strings.ReplaceAll(s, "\"", "&quot;")
-	s = strings.ReplaceAll(s, "'", "&apos;")
-	return s
+	var buf bytes.Buffer
+	if err := xml.EscapeText(&buf, []byte(s)); err != nil {
+		return ""
+	}
+	return buf.String()
 }
 
 // processDocumentLevelLoops 处理文档级别的循环（跨段落）
